@@ -1,8 +1,8 @@
 import JadeModel.Proofs.SystemUniqueB
-import JadeModel.Proofs.SystemUniqueCDefs
 import JadeModel.Proofs.SystemUniqueCStepA
 import JadeModel.Proofs.SystemUniqueCStepB
 import JadeModel.Proofs.SystemUniqueCStepC
+import JadeModel.Proofs.SystemUniqueCStepD
 
 set_option linter.unusedSimpArgs false
 
@@ -12,9 +12,10 @@ namespace Jade.Sys
 
 theorem plainC_step {s s' : Sys} {op : Op} (hn : NodeInv s) (ha : PlainA s) (hb : PlainB s) (hi : PlainC s)
     (h : step s op = some s') (hf : op.risky = false) : PlainC s' := by
-  obtain ⟨c_queuedNoRow, c_runningNoRow⟩ := plainC_step_a hn ha hb hi h hf
-  obtain ⟨c_queuedRunning, c_cancelNoRow⟩ := plainC_step_b hn ha hb hi h hf
-  obtain ⟨c_pendingNoRow, c_uniq⟩ := plainC_step_c hn ha hb hi h hf
+  obtain ⟨c_queuedNoRow, c_uniq⟩ := plainC_step_a hn ha hb hi h hf
+  obtain ⟨c_runningNoRow, c_pendingNoRow⟩ := plainC_step_b hn ha hb hi h hf
+  have c_queuedRunning := plainC_step_c hn ha hb hi h hf
+  have c_cancelNoRow := plainC_step_d hn ha hb hi h hf
   exact ⟨c_queuedNoRow, c_runningNoRow, c_queuedRunning, c_cancelNoRow, c_pendingNoRow, c_uniq⟩
 
 end Jade.Sys
